@@ -35,7 +35,8 @@ def worker_init():
 CASES = ["hat_vee", "se3_build", "se3_inverse", "relative_se3", "sim3", "sim3_inverse", "angle_range_symmetry",
          "angle_zero_iff_equal", "angle_biinvariant_left", "angle_biinvariant_right", "angle_degrees",
          "member_accept", "member_reject_reflection", "member_reject_scaled", "member_reject_sheared",
-         "member_reject_bottom_row", "is_sim3_scaled_margin", "so3_log_refuses_non_rotation", "relative_so3"]
+         "member_reject_bottom_row", "is_sim3_scaled_margin", "so3_log_refuses_non_rotation", "relative_so3",
+         "log_skew_consistent"]
 
 
 def cases(tier, seed):
@@ -350,6 +351,37 @@ def case_angle_range_symmetry(case, col):
         ok = -1e-12 <= x <= math.pi + 1e-12 and abs(x - y) < 1e-7 and abs(x - math.acos(c)) < 1e-6
         return (not ok), "angle %r / swapped %r / acos %r" % (x, y, math.acos(c)) if not ok else "ok"
     _simple(col, fn, [unit(qa), unit(qb)], inputs, goals, replay, "angle range/symmetry",
+            on_exc=lambda pr: col.d["harness_errors"].append(dict(ob="path", why="so3_log refused a rotation: %s" % pr.status)))
+
+
+def case_log_skew_consistent(case, col):
+    """the two return forms of so3_log describe the same logarithm: the skew form is hat() of the rotation vector,
+    and its magnitude is the rotation angle -- on all of SO(3), half turns included (added after seed C09d)"""
+    qa = qvars("a")
+    inputs = {str(x): x for x in qa}
+
+    def fn():
+        A = reg(qa)
+        return L().so3_log(A), L().so3_log(A, return_skew=True), L().so3_log_angle(A)
+
+    def goals(out):
+        v, H, ang = out
+        vz = [toz(v[i]) for i in range(3)]
+        w = [toz(H[2, 1]), toz(H[0, 2]), toz(H[1, 0])]
+        return dict(shapes=z3.BoolVal(v.shape == (3,) and H.shape == (3, 3)),
+                    skew_form_is_hat_of_the_rotation_vector=mat_eq(H, [[0, -vz[2], vz[1]], [vz[2], 0, -vz[0]], [-vz[1], vz[0], 0]]),
+                    magnitude_of_the_skew_form_is_the_rotation_angle=(w[0] * w[0] + w[1] * w[1] + w[2] * w[2] == toz(ang) * toz(ang)))
+
+    def replay(vals):
+        A = real_R(vals, qa)
+        v, H, ang = Lr().so3_log(A), Lr().so3_log(A, return_skew=True), Lr().so3_log_angle(A)
+        bad = []
+        if not close(H, Lr().hat(v), 1e-6):
+            bad.append("so3_log(R, return_skew=True) is not hat(so3_log(R))")
+        if abs(rnp.linalg.norm(Lr().vee(H)) - ang) > 1e-6:
+            bad.append("|vee(log R)| = %r but the rotation angle is %r" % (float(rnp.linalg.norm(Lr().vee(H))), ang))
+        return bool(bad), "; ".join(bad) or "ok"
+    _simple(col, fn, [unit(qa)], inputs, goals, replay, "so3_log: skew form vs rotation vector",
             on_exc=lambda pr: col.d["harness_errors"].append(dict(ob="path", why="so3_log refused a rotation: %s" % pr.status)))
 
 
